@@ -85,6 +85,37 @@ Definition expires_header (h : headers) : bool * option Z :=
   | v => (true, raw_time v)
   end.
 
+(* the response's own freshness lifetime (before the request's max-age is applied) *)
+Definition response_lifetime (e : stored_entry) (res_cc : directives) : Z :=
+  let date := date_header (e_hdr e) in
+  let life0 := match resp_max_age res_cc with
+               | Some m => if 0 <=? m then m else 0
+               | None => 0
+               end in
+  if negb (resp_max_age_present res_cc) then
+    match expires_header (e_hdr e) with
+    | (_, Some ex) => if date <? ex then time_sub ex date else 0
+    | (true, None) => 0
+    | (false, None) =>
+        if is_heuristically_cacheable (e_status e) || resp_public res_cc
+        then heuristic_freshness (e_hdr e) date else 0
+    end
+  else life0.
+
+Definition entry_age (e : stored_entry) (now : Z) : Z :=
+  current_age (e_hdr e) (date_header (e_hdr e)) (e_req_at e) (e_recv_at e) now.
+
+(* max-stale as CalculateFreshness reads it: 0 = none *)
+Definition max_stale_value (req_cc : directives) : Z :=
+  match req_max_stale_raw req_cc with
+  | Some [] => max64
+  | Some v => match delta_seconds v with
+              | Some ms => if 0 <=? ms then ms else 0
+              | None => 0
+              end
+  | None => 0
+  end.
+
 (* CalculateFreshness.  The clock is read up to three times at the same instant [now]
    (no blocking operation happens in between). *)
 Definition calculate_freshness (e : stored_entry) (req_cc res_cc : directives) (now : Z) : freshness :=
@@ -92,23 +123,8 @@ Definition calculate_freshness (e : stored_entry) (req_cc res_cc : directives) (
   | Some 0 => {| f_stale := true; f_age := 0; f_age_ts := now; f_life := 0;
                  f_expired := true; f_req_max_age_exceeded := true |}
   | _ =>
-      let date := date_header (e_hdr e) in
-      let age := current_age (e_hdr e) date (e_req_at e) (e_recv_at e) now in
-      let life0 := match resp_max_age res_cc with
-                   | Some m => if 0 <=? m then m else 0
-                   | None => 0
-                   end in
-      let life1 :=
-        if negb (resp_max_age_present res_cc) then
-          match expires_header (e_hdr e) with
-          | (_, Some ex) =>
-              if date <? ex then time_sub ex date else 0
-          | (true, None) => 0
-          | (false, None) =>
-              if is_heuristically_cacheable (e_status e) || resp_public res_cc
-              then heuristic_freshness (e_hdr e) date else 0
-          end
-        else life0 in
+      let age := entry_age e now in
+      let life1 := response_lifetime e res_cc in
       let expired := life1 <=? age in
       let life :=
         match req_max_age req_cc with
@@ -128,15 +144,7 @@ Definition calculate_freshness (e : stored_entry) (req_cc res_cc : directives) (
       if min_fresh_stale then {| f_stale := true; f_age := age; f_age_ts := now; f_life := life;
                                  f_expired := expired; f_req_max_age_exceeded := exceeded |}
       else
-        let max_stale :=
-          match req_max_stale_raw req_cc with
-          | Some [] => max64
-          | Some v => match delta_seconds v with
-                      | Some ms => if 0 <=? ms then ms else 0
-                      | None => 0
-                      end
-          | None => 0
-          end in
+        let max_stale := max_stale_value req_cc in
         let stale0 := life <=? age in
         let stale :=
           if stale0 && (0 <? max_stale) && (age <? Z.max (dur_add life max_stale) max_stale)
@@ -145,9 +153,6 @@ Definition calculate_freshness (e : stored_entry) (req_cc res_cc : directives) (
            f_expired := expired; f_req_max_age_exceeded := exceeded |}
   end.
 
-(* SetAgeHeader: Age := itoa(int(seconds of max(age + since(ts), 0))) ; Duration.Seconds() is a float,
-   the conversion int(float) truncates: for non-negative durations this is d / 1e9 up to float rounding,
-   which is exact for d < 2^53 ns and at most one off in the last of ten or more digits beyond. *)
 (* int(d.Seconds()) for d >= 0, where Seconds() = float64(d/1e9) + float64(d%1e9)/1e9 in IEEE doubles *)
 Definition seconds_trunc (d : Z) : Z :=
   let sec := d / second in
